@@ -179,8 +179,10 @@ def lookups_are_stateless(F, S):
     the constructor no operation writes a data member of the manager (no caches whose content depends on earlier queries)."""
     out = []
     n = 0
+    from ..invariants import ctor_only_functions
+    building = ctor_only_functions(F, RM)        # private helpers only the constructor runs are part of construction
     for fn in sorted(F.functions.values(), key=lambda f: f.key):
-        if fn.cls != RM or not fn.cfg or fn.d.get("implicit") or fn.d.get("ctor") or fn.name.startswith("~"):
+        if fn.cls != RM or not fn.cfg or fn.d.get("implicit") or fn.d.get("ctor") or fn.name.startswith("~") or fn.key in building:
             continue
         n += 1
         w = sorted(it for it in S.writes(fn) if it[0] in ("this", "this@", "unknown"))
@@ -287,20 +289,39 @@ def ctor_order(F):
     if len(cs) != 1:
         raise AnalysisBroken("ResourceManager constructor not found")
     fn = cs[0]
-    seq = []
-    for nd in fn.nodes:
-        if nd["k"] in CALLS:
+    from ..invariants import ctor_only_functions
+    building = ctor_only_functions(F, RM)
+
+    def walk(f, sub, depth):
+        """(kind, what) events of f in source order, looking into private helpers only the constructor runs (their
+        parameters read as the arguments they are given), and the number of appends to ArchiveFiles."""
+        ev, pushes = [], 0
+        for nd in sorted(f.nodes, key=lambda n: n["id"]):
+            if nd["k"] == "CXXMemberCallExpr" and nd.get("fname") == "push_back" and f.term(nd["obj"]) == ("mem", ("this",), "ArchiveFiles"):
+                pushes += 1
+            if nd["k"] not in CALLS:
+                continue
+            t = substitute(f.term(nd["id"]), sub) if sub else f.term(nd["id"])
             # a directory listing by extension under the resource root (through the forwarding helper or directly)
-            t = fn.term(nd["id"])
             if t[0] == "call" and t[1] == XF + "DirFilesWithExtension" and len(t[3]) == 2 and t[3][0] == ("mem", ("this",), "resourceRootDir"):
-                seq.append((nd["id"], "list", repr(t[3][1])))
-        if nd["k"] in CALLS and (nd.get("fq") or "").startswith("std::make_unique") and nd.get("targs"):
-            seq.append((nd["id"], "make", nd["targs"][0].get("record") or nd["targs"][0].get("ct")))
-    seq.sort()
+                ev.append((nd["id"], "list", repr(t[3][1])))
+                continue
+            if (nd.get("fq") or "").startswith("std::make_unique") and nd.get("targs"):
+                ev.append((nd["id"], "make", nd["targs"][0].get("record") or nd["targs"][0].get("ct")))
+                continue
+            if depth > 0:
+                for cal in F.callees(nd):
+                    if cal.key in building and cal.cfg:
+                        s2 = {("var", p["n"], p["d"]): (substitute(f.term(a), sub) if sub else f.term(a)) for p, a in zip(cal.params, nd.get("args", []))}
+                        e2, p2 = walk(cal, s2, depth - 1)
+                        ev += [(nd["id"], k_, v_) for (_i, k_, v_) in e2]
+                        pushes += p2
+        return ev, pushes
+    seq, npush = walk(fn, {}, 2)
     kinds = [(k, v) for (_, k, v) in seq]
     good = len(kinds) == 4 and kinds[0][0] == "list" and ".vol" in kinds[0][1] and kinds[1] == ("make", AR + "VolFile") and \
         kinds[2][0] == "list" and ".clm" in kinds[2][1] and kinds[3] == ("make", AR + "ClmFile")
-    pushes = [nd for nd in fn.nodes if nd["k"] == "CXXMemberCallExpr" and nd.get("fname") == "push_back" and fn.term(nd["obj"]) == ("mem", ("this",), "ArchiveFiles")]
+    pushes = [None] * npush
     inst = RM + "::ResourceManager#load-order"
     req = "archives are loaded (appended) in directory listing order, volumes before clumps"
     if good and len(pushes) == 2:
